@@ -622,12 +622,24 @@ def st_template(draw, decades=(-2.0, 3.0), strong=None):
 
 
 @st.composite
-def st_twostep(draw, decades=(-2.0, 3.0)):
+def st_twostep(draw, decades=(-2.0, 3.0), variant=None):
     """Generated coefficients around the repo's (a0, aL, aH, m) = (1, 0.2, 0.1, 0.4).
 
     m > aL makes the low-T phase the favoured one below Tc; a0 is chosen so that enthalpies are
     positive down to r*Tn (r <= 0.5): a0 >= aL m/(r x)^2 - aL^2 (and the analogue for the high-T phase).
     """
+    if variant == "strongT":
+        # sound speeds that depend visibly on the temperature (c_s^2 changes by several per cent between Tn and
+        # T+): large quadratic couplings relative to a0, enthalpies positive down to 0.4-0.5 Tn only
+        aL = draw(_f(0.2, 0.8))
+        aH = aL * draw(_f(0.5, 0.9))
+        m = aL * (1.0 + 10.0 ** draw(_f(-1.0, 0.3)))
+        x = draw(_f(0.7, 0.98))
+        r = draw(_f(0.4, 0.5))
+        need = max(aL * m / (r * x) ** 2 - aL * aL, aH * (m - aL + aH) / (r * x) ** 2 - aH * aH, 0.05)
+        a0 = need * (1.0 + 10.0 ** draw(_f(-2.0, -0.5)))
+        return {"family": "twostep", "Tn": draw(st_tn(decades)), "x": x, "a0": a0, "aL": aL, "aH": aH,
+                "m": m, "P0": 10.0 ** draw(_f(-1.0, 2.0))}
     aL = draw(_f(0.05, 0.5))
     aH = aL * draw(_f(0.0, 0.9))
     m = aL * (1.0 + 10.0 ** draw(_f(-1.0, 0.6)))
